@@ -93,12 +93,28 @@ def build_wide(rng, name):
     b.emit("kdecinto r e", "ok"); b.kmerge("r2", "src"); j1 = b.emit("kobs r2"); b.emit("kobs r", ("same", j1))
     return b
 
+def build_big_total(rng, facts, name):
+    """An exact-statistics sketch whose total weight is an integer just above 2^52 (its varfloat takes all 9 bytes, the last one with its top bit set),
+    read back by both decoders: integer weights below 2^53 are inside the property."""
+    spec = rng.choice(sorted(facts)); b = Builder(name); kp = rng.choice(STORES)
+    b.knew("src", spec, kp, kp, True)
+    b.kadd("src", 3.0, float(2 ** 52)); b.kadd("src", 5.0, rng.choice([1.0, 3.0, float(2 ** 51 - 1)])); b.kadd("src", -2.0, rng.choice([2.0, 4.0]))
+    j0 = b.emit("kobs src"); b.emit("kenc e src 0", "ok")
+    for kind in ("sparse", rng.choice(["dense", "pag"])):
+        def bins_same(a, env, impl):          # the plain sketch approximates min/max from its bins: compare content only
+            if a.startswith("err") or a == "panic": return "decoding failed: %r" % a
+            hs, ps, ns = split_kobs(impl[j0]); ha, pa, na = split_kobs(a)
+            return None if (pa, na, ha["zero"], ha["count"]) == (ps, ns, hs["zero"], hs["count"]) else "the plain decoder holds %r / %r, the sketch held %r / %r" % (pa, na, ps, ns)
+        b.emit("kdec p e %s nil" % kind, "ok"); b.emit("kobs p", bins_same)
+        b.emit("kdec x e %s nil exact" % kind, "ok"); js = b.emit("kstats src"); b.emit("kstats x", ("same", js)); b.emit("kobs x", ("same", j0))
+    return b
+
 def run(tier, seed):
     rng = random.Random(seed)
     ok, log = core.build_vrun()
     specs = spec_list(rng, 12 if tier == "quick" else 50)
     facts = sketchcheck.learn_specs("C06", specs) if ok else {}
-    builders = ([build(rng, facts, "e%d" % i) for i in range(250 if tier == "quick" else 6000)] + [build_wide(rng, "w%d" % i) for i in range(6 if tier == "quick" else 60)]) if facts else []
+    builders = ([build(rng, facts, "e%d" % i) for i in range(250 if tier == "quick" else 6000)] + [build_wide(rng, "w%d" % i) for i in range(6 if tier == "quick" else 60)] + [build_big_total(rng, facts, "b%d" % i) for i in range(8 if tier == "quick" else 80)]) if facts else []
     return sketchcheck.run_sketch_property(
         "C06", tier, seed, builders,
         "sketches from short histories (unit/dyadic/large integer weights surviving the +1/-1 transform, both variants, source stores of every kind incl. collapsing) are encoded with the mapping "
